@@ -256,6 +256,12 @@ def run(rep, tier):
             e2_poly(e, 3, 3, indefinite=True)
         for (n, k) in ([(2, 1)] if tier == "quick" else [(2, 1), (3, 1), (2, 4), (2, 8)]):
             e2_log(e, n, k)
+    from props.c15 import STRUCT_SIZES_QUICK, STRUCT_SIZES_THOROUGH
+    from props.struct_obl import structural_obligations
+    structural_obligations(e, ["integ", "indef", "iterref", "iter"], STRUCT_SIZES_QUICK if tier == "quick" else STRUCT_SIZES_THOROUGH,
+                           "pw-integral-structure")
+    rep.bounds["segments_structure_encoding"] = "%s (thorough to 1000): Piecewise::integral / indefinite and both segment iterators from the MIR " \
+        "with Segment::integral / indefinite / piece evaluate uninterpreted" % STRUCT_SIZES_QUICK
     e.finish()
     run_e1(rep, e1_specs(tier))
 
@@ -263,5 +269,22 @@ def run(rep, tier):
 def replay(path):
     if path.endswith(".rs"):
         return replay_cmd(path)
-    print("E2 obligations of C11 are exact-arithmetic identities; see the model in the evidence file")
+    import json
+    d = json.load(open(path))
+    if d.get("kind") == "E2-native-structural":
+        from props.struct_obl import replay_file
+        return replay_file(path)
+    if d.get("kind") == "E2-native-pwinteg":
+        from engine import Native
+
+        class _E:
+            native = Native()
+        kind = "LP" if d["piece"].startswith("LP") else "P"
+        k = int(d["piece"][len(kind):])
+        segs = [(en, cs) for en, cs in d["segments"]]
+        msgs = native_pw_check(_E(), kind, k, len(segs), segs, d["kx"], d["ky"], d.get("indefinite", False))
+        for m in msgs:
+            print(m)
+        return 1 if msgs else 0
+    print("no native replay recorded for this obligation; see the model in the evidence file")
     return 2
